@@ -5,6 +5,7 @@ Line formats (shared by harness/src/main.rs and ocaml/driver.ml):
   K <id> <cap> <op>...                      cache history
   O <id> <hexa> <hexb>                      outpoint key order
   D <id> <kind> <hex>                       redb round trip (implementation only)
+  F <id> <hex block> <hex id>               Block::visit with FindTransaction::new(id), then tx_found()
 """
 import os
 import random
@@ -898,4 +899,55 @@ def stream_redb(tier, seed):
             b, _ = btc.obj_bytes("txout", tx["outs"][0])
             lines.append("D d%d txout %s" % (n, hx(b))); n += 1
         lines.append("D d%d outpoint %s" % (n, hx(btc.rand_bytes(rng, 36)))); n += 1
+    return lines
+
+
+def stream_find(tier, seed):
+    """C19: blocks searched for a transaction id with the crate's own visitor.  Ids: the txid of every transaction
+    (first of duplicates), and ids that are NOT in the block although they are hashes of its data or near misses:
+    wtxids, the merkle root, the block hash, present ids with one bit flipped, the reversed id, a random id.
+    Also blocks cut short (the search runs on a prefix: found before the cut, or MoreBytesNeeded) and blocks
+    containing the same transaction twice."""
+    import hashlib
+
+    def dsha(b):
+        return hashlib.sha256(hashlib.sha256(b).digest()).digest()
+    rng = rng_for(seed, "find")
+    lines = []
+    n = 0
+    nblocks = 60 if tier == "quick" else 600
+    for k in range(nblocks):
+        blk = btc.rand_block(rng, ntx=rng.choice([0, 1, 2, 3, 3, 4, 5, 8]))
+        if blk["txs"] and rng.random() < 0.3:
+            # the same transaction twice (duplicate ids: the first must be returned), possibly not adjacent
+            j = rng.randrange(len(blk["txs"]))
+            blk["txs"].insert(rng.randrange(len(blk["txs"]) + 1), dict(blk["txs"][j]))
+        b, _ = btc.block_bytes(blk)
+        ids = []
+        for t in blk["txs"]:
+            tid = dsha(btc.tx_stripped(t))
+            tb, _ = btc.tx_bytes(t)
+            ids.append(tid)
+            ids.append(dsha(tb))                                   # wtxid (equal to the txid for legacy)
+            for pos in (0, 20, 31):
+                m = bytearray(tid); m[pos] ^= 1 << rng.randrange(8); ids.append(bytes(m))
+            ids.append(tid[::-1])
+        ids.append(dsha(b[:80]))
+        ids.append(b[36:68])
+        ids.append(btc.rand_bytes(rng, 32))
+        ids.append(bytes(32))
+        seen = set()
+        for i in ids:
+            if i in seen:
+                continue
+            seen.add(i)
+            lines.append("F f%d %s %s" % (n, hx(b), hx(i))); n += 1
+        # the block followed by junk, and cut at a few places (also inside / right after a matching transaction)
+        if blk["txs"]:
+            tid = dsha(btc.tx_stripped(rng.choice(blk["txs"])))
+            lines.append("F f%d %s %s" % (n, hx(b + btc.rand_bytes(rng, 3)), hx(tid))); n += 1
+            cuts = sorted(set([80, 81, len(b) - 1, len(b) - 4] + [rng.randrange(80, len(b)) for _ in range(6)]))
+            for c in cuts:
+                if 0 <= c < len(b):
+                    lines.append("F f%d %s %s" % (n, hx(b[:c]), hx(tid))); n += 1
     return lines
